@@ -503,7 +503,10 @@ func main() {
 	r.Finish("pure: random offered sets (0-40 outputs, 1-6 owners, boundary-biased coins/hours/ages inside the documented range) x requests by recipe "+
 		"(random, exact-all, exact-top, one-short, one-left, mirror, ...) x manual / auto-share {0,0.000001,1/3,0.5,1,...} x explicit / automatic change; "+
 		"node: the same requests against outputs that really exist on a publisher node's chain, through Visor.CreateTransaction, the wallet variants and POST /api/v2/transaction, "+
-		"then signed and injected. A case is distinct by (leg, outcome, recipe, mode, input/output count bucket, change/extra-input/fall-back/all-spent flags).",
+		"then signed and injected; sessions: 2-4 requests by one caller on one offered set who reuses its objects (one *decimal.Decimal share factor, one change-address pointer, "+
+		"one destination array of which each request is a prefix, one offered-outputs map; in the node leg a first request before the main one with the same share factor object and output/address lists), "+
+		"among them 'everything with automatic hours' (the fall-back to 1.0) followed by requests with change; each request is judged by the values the caller set (private copies), and after every call, "+
+		"whatever its outcome, every caller-visible input (Params, the pointed-to share factor and change address, To up to its capacity, offered outputs, UxOuts/Addresses) must equal its pre-call copy. A case is distinct by (leg, outcome, recipe, mode, input/output count bucket, change/extra-input/fall-back/all-spent flags).",
 		"operating range: total offered coins and total accrued hours below 2^63, accrual not overflowing 64-bit intermediates, offered outputs distinct and consistent (block 0 <=> null source transaction)",
 		"user-level error = transaction.Error, visor.UserError, wallet.Error, blockdb.ErrUnspentNotExist, fee.ErrTxnNoFee, fee.ErrTxnInsufficientCoinHours (the set the HTTP API maps to 400); over HTTP: status 4xx",
 		"allotted amount (auto/share) = floor(share_factor x (input hours - required fee)) per README and the Create doc comment; with the documented forced extra input the allotment may be the one computed before that input was added; without a change output the destinations receive all remaining hours (documented fall-back to 1.0)",
@@ -541,6 +544,8 @@ func floors(r *vf.Run) {
 	r.Floor("session.caller-inputs-compared", 5000)
 	r.Floor("pure.caller-inputs-compared", 10000)
 	r.Floor("node.caller-inputs-compared", 100)
+	r.Floor("node.session.first-requests", 30)
+	r.Floor("node.session.with-change-after-fallback-on-same-share-factor", 5)
 	r.Floor("node.success", 100)
 	r.Floor("node.admitted", 100)
 	r.Floor("node.success.mode:manual", 20)
